@@ -363,7 +363,8 @@ htp_status_t htp_connp_REQ_CONNECT_PROBE_DATA(htp_connp_t *connp) {
         fprint_raw_data(stderr, "htp_connp_REQ_CONNECT_PROBE_DATA: tunnel is not HTTP", data, len);
 #endif
         connp->in_status = HTP_STREAM_TUNNEL;
-        connp->out_status = HTP_STREAM_TUNNEL;
+        if ((connp->out_status != HTP_STREAM_ERROR) && (connp->out_status != HTP_STREAM_STOP))
+            connp->out_status = HTP_STREAM_TUNNEL;
     }
 
     // not calling htp_connp_req_clear_buffer, we're not consuming the data
